@@ -411,11 +411,13 @@ def totalBondsSize (ss : List MolO) : Nat := (ss.map (fun s => bondsSize s.bonds
 def stackData (ss : List MolO) (j : Nat) : List Int :=
   ss.flatMap (fun s => ((s.arrays[j]?).map (·.data)).getD [])
 
-/-- number of arrays every source has -/
-def commonSlots : List MolO → Nat
+/-- the smallest of a list of numbers (0 for the empty list) -/
+def minLen : List Nat → Nat
   | [] => 0
-  | [s] => s.arrays.length
-  | s :: ss => min s.arrays.length (commonSlots ss)
+  | a :: l => l.foldl min a
+
+/-- number of arrays every source has -/
+def commonSlots (ss : List MolO) : Nat := minLen (ss.map (fun s => s.arrays.length))
 
 /-- `cls.concatenate(s1, …, sk)` for any number of structures (repetitions allowed) -/
 def concatN (fl : Flags) (n : Nat) (cls : Nat) (ss : List MolO) : MolO :=
